@@ -339,7 +339,9 @@ pub fn scenario(ch: &mut Chooser, thorough: bool) -> Exec {
         }
         for (kind, dst) in dests {
             tag += 1;
-            let payload: Vec<u8> = vec![tag, s.host as u8, 0xA1, 0xA2, 0xA3];
+            // every fourth probe is an empty datagram (it must arrive like any other)
+            let paylen = if tag % 4 == 3 { 0 } else { 5 };
+            let payload: Vec<u8> = vec![tag, s.host as u8, 0xA1, 0xA2, 0xA3][..paylen].to_vec();
             st.borrow_mut().results.clear();
             st.borrow_mut().drained.clear();
             st.borrow_mut().cmds[s.host].push_back(Cmd::Send { slot: s.slot, dst, payload: payload.clone() });
